@@ -617,6 +617,31 @@ theorem mismatchMcCnn_generated_eq (m : DMap) (r c : Nat) (hr : r < m.rows) (hc 
           simp only [Bool.or_eq_true, decide_eq_true_eq, not_or] at hcnd
           omega
 
+/-! ## `interpolate_nodata_sgm` (pandora/img_tools.py) -/
+
+/-- **One pixel of `interpolate_nodata_sgm`, as the source defines it today, is `Interp.nodataSgmPixel`**: an invalid
+    pixel takes the `nanmedian` of `find_valid_neighbors` along the 8 sgm directions and the flag word FILLED_NODATA. -/
+theorem nodataSgm_generated_eq (m : DMap) (r c : Nat) (hr : r < m.rows) (hc : c < m.cols) :
+    nodataSgmPx (embedDisp m) m.rows m.cols (embedFlag m) m.rows m.cols r c
+      = .ok ((nodataSgmPixel m r c).1, (((nodataSgmPixel m r c).2 : Nat) : Int)) := by
+  have hr0 : (0 : Int) ≤ r := Int.natCast_nonneg r
+  have hc0 : (0 : Int) ≤ c := Int.natCast_nonneg c
+  have hrR : (r : Int) < m.rows := by exact_mod_cast hr
+  have hcC : (c : Int) < m.cols := by exact_mod_cast hc
+  have hcall := findValidNeighbors_generated_eq m r c
+  simp only [sgmDirs] at hcall
+  have hft := flag_test m r c 963
+  rw [show ((963 : Nat) : Int) = 963 from rfl] at hft
+  have hpi : pixelInvalid = 963 := rfl
+  have hfn : filledNodata = 1024 := rfl
+  simp only [nodataSgmPx, get2_of (embedFlag m) _ _ hr0 hc0, get2_of (embedDisp m) _ _ hr0 hc0,
+    inb2_of hr0 hrR hc0 hcC, embedFlag_nonneg, decide_true, Bool.and_true, hcall, Res.isOk, Res.getD, hft]
+  unfold nodataSgmPixel
+  simp only [hpi, hfn]
+  by_cases hinv : ((m.flag r c &&& 963) != 0) = true
+  · simp [hinv, PyInterp.nanmedian]
+  · simp [hinv, embedDisp, embedFlag]
+
 /-! ## Non-vacuity -/
 
 def exMap : DMap :=
@@ -653,5 +678,8 @@ def exMap3 : DMap :=
 
 example : mismatchMcCnnPx (embedDisp exMap3) 3 5 (embedFlag exMap3) 3 5 1 2 = .ok (.num 7, 32) := by decide +kernel
 example : mismMcPixel ⟨true, .or⟩ exMap3 1 2 = (.num 7, 32) := by decide +kernel
+
+example : nodataSgmPx (embedDisp exMap) 3 3 (embedFlag exMap) 3 3 1 1 = .ok (.num 6, 1024) := by decide +kernel
+example : nodataSgmPixel exMap 1 1 = (.num 6, 1024) := by decide +kernel
 
 end Pandora.C14Kernels
